@@ -13,13 +13,13 @@ from harness.kernels import PATTERN_ALPHABET, dense_B, kernel_input, model_value
 from harness.runner import run_property
 
 PROP = "C09"
-THEOREMS = ["Lbfgsb.C09.gauss_solves", "Lbfgsb.C09.gauss_unique", "Lbfgsb.C09.subspace_newton_point_solved", "Lbfgsb.C09.subspace_model_no_increase_solved", "Lbfgsb.C09.subspace_direction_descent_solved", "Lbfgsb.C09.subspace_newton_point_pd", "Lbfgsb.C09.regular_pivots", "Lbfgsb.C09.active_fixed", "Lbfgsb.C09.xbar_in_box", "Lbfgsb.C09.none_free", "Lbfgsb.C09.alpha_star_feasible",
+THEOREMS = ["Lbfgsb.C10.subspace_newton_point_curv", "Lbfgsb.C09.gauss_solves", "Lbfgsb.C09.gauss_unique", "Lbfgsb.C09.subspace_newton_point_solved", "Lbfgsb.C09.subspace_model_no_increase_solved", "Lbfgsb.C09.subspace_direction_descent_solved", "Lbfgsb.C09.subspace_newton_point_pd", "Lbfgsb.C09.regular_pivots", "Lbfgsb.C09.active_fixed", "Lbfgsb.C09.xbar_in_box", "Lbfgsb.C09.none_free", "Lbfgsb.C09.alpha_star_feasible",
             "Lbfgsb.C09.smw_direction", "Lbfgsb.C09.masked_newton_condition", "Lbfgsb.C09.subspace_no_increase",
             "Lbfgsb.C09.descent_of_decrease", "Lbfgsb.C09.direction_descent", "Lbfgsb.C09.newton_of_reduced", "Lbfgsb.C09.reduced_bmat",
             "Lbfgsb.C09.code_direction_descent", "Lbfgsb.C09.masked_smw", "Lbfgsb.C09.subspace_newton_point",
             "Lbfgsb.C09.subspace_model_no_increase", "Lbfgsb.C09.subspace_direction_descent", "Lbfgsb.C09.subspace_newton_point_nopairs",
             "Lbfgsb.C09.subspace_direction_descent_nopairs"]
-MODULES = ["LbfgsbVerif.Props.C09Solve", "LbfgsbVerif.Props.C09", "LbfgsbVerif.Props.C09Model", "LbfgsbVerif.Props.C09Run"]
+MODULES = ["LbfgsbVerif.Props.C10Kernel", "LbfgsbVerif.Props.C09Solve", "LbfgsbVerif.Props.C09", "LbfgsbVerif.Props.C09Model", "LbfgsbVerif.Props.C09Run"]
 
 
 def dense_from_pairs(S: np.ndarray, Y: np.ndarray) -> np.ndarray:
